@@ -6,12 +6,14 @@ import (
 	"github.com/criyle/go-sandbox/pkg/rlimit"
 	"golang.org/x/sys/unix"
 	"os"
+	"path/filepath"
 	"strconv"
 	"strings"
 	"syscall"
 	"time"
 
 	"github.com/criyle/go-sandbox/container"
+	"github.com/criyle/go-sandbox/ptracer"
 	"github.com/criyle/go-sandbox/runner"
 	"github.com/criyle/go-sandbox/runner/ptrace"
 	"github.com/criyle/go-sandbox/runner/unshare"
@@ -129,6 +131,104 @@ func c09run(setup string, argv []string, onPid func(int)) (runner.Result, error)
 
 var c09core bool
 
+// kind "hostkill-inside-a-policy-decision" (ptrace runner): the SIGKILL reaches the program (or its forked child) while
+// the tracer is deciding about one of its traced calls: the policy itself sends it and then answers allow, ban or kill.
+// Whatever the tracer was about to do with that call, the ending is the one the table gives for SIGKILL (main process),
+// or the main process's own ending (child).
+type c09killerPolicy struct {
+	verdict ptracer.TraceAction
+	done    bool
+}
+
+func (p *c09killerPolicy) decide(path string) ptracer.TraceAction {
+	if !p.done && strings.Contains(path, "c09-kill-me-") {
+		p.done = true
+		var pid int
+		rest := path[strings.Index(path, "c09-kill-me-")+len("c09-kill-me-"):]
+		if strings.HasPrefix(rest, "child-of-") {
+			// the caller is the forked child of that process
+			var parent int
+			fmt.Sscanf(rest, "child-of-%d", &parent)
+			b, _ := os.ReadFile(fmt.Sprintf("/proc/%d/task/%d/children", parent, parent))
+			fmt.Sscan(string(b), &pid)
+		} else {
+			fmt.Sscanf(rest, "%d", &pid)
+		}
+		if pid > 0 {
+			syscall.Kill(pid, syscall.SIGKILL)
+			// the signal is on its way: wait until the kernel has begun to tear the task down
+			waitUntil(horizon, func() bool {
+				b, err := os.ReadFile(fmt.Sprintf("/proc/%d/stat", pid))
+				return err != nil || strings.Contains(string(b), ") Z ") || strings.Contains(string(b), ") X ")
+			})
+		}
+		return p.verdict
+	}
+	return ptracer.TraceAllow
+}
+func (p *c09killerPolicy) CheckRead(s string) ptracer.TraceAction  { return p.decide(s) }
+func (p *c09killerPolicy) CheckWrite(s string) ptracer.TraceAction { return p.decide(s) }
+func (p *c09killerPolicy) CheckStat(s string) ptracer.TraceAction  { return p.decide(s) }
+func (p *c09killerPolicy) CheckSyscall(string) ptracer.TraceAction { return ptracer.TraceAllow }
+
+func c09killInDecision(x *mc.X, setup string) {
+	verdict := x.Pick("verdict", "allow", "ban", "kill")
+	who := x.Pick("killed", "main", "forked-child")
+	x.Note("case", fmt.Sprintf("SIGKILL of the %s while the tracer decides about its traced call; the policy then answers %s", who, verdict))
+	if setup != "ptrace" {
+		x.Outcome("n/a:only-the-tracer-consults-a-policy")
+		return
+	}
+	if x.Dry() {
+		return
+	}
+	dir := tmpDir("c09k")
+	defer os.RemoveAll(dir)
+	// sysrun: the path of the traced access() carries the pid of the process that issues it ($P is not available: the
+	// script is written for the pid once it is known, i.e. inside the sync callback)
+	sf, _ := os.Create(filepath.Join(dir, "script"))
+	defer sf.Close()
+	pol := &c09killerPolicy{verdict: map[string]ptracer.TraceAction{"allow": ptracer.TraceAllow, "ban": ptracer.TraceBan, "kill": ptracer.TraceKill}[verdict]}
+	ctx, cancel := context.WithTimeout(context.Background(), 30*time.Second)
+	defer cancel()
+	res := runPtrace(ctx, []string{probe("sysrun")}, func(r *ptrace.Runner) {
+		r.Files = []uintptr{sf.Fd(), devnull(), devnull()}
+		r.Seccomp = c15Filter()
+		r.Handler = pol
+		r.SyncFunc = func(pid int) error {
+			// the program has not run yet: its script is written now that its pid is known. A forked child's pid is not
+			// known in advance: the child names its own pid through getpid-independent means — the policy kills the
+			// process group member that is not the main process
+			line := fmt.Sprintf("S %s/c09-kill-me-%d\nX 21 $0 0\n", dir, pid)
+			script := line + "Q 7\n"
+			if who == "forked-child" {
+				script = fmt.Sprintf("S %s/c09-kill-me-child-of-%d\nF\nX 21 $0 0\nE\nW\nQ 7\n", dir, pid)
+			}
+			sf.WriteString(script)
+			sf.Seek(0, 0)
+			return nil
+		}
+	})
+	x.Note("result", fmt.Sprintf("%s exit=%d err=%q", statusName(res.Status), res.ExitStatus, res.Error))
+	x.Distinct(fmt.Sprint("kd", verdict, who, res.Status, res.ExitStatus))
+	x.Outcome("kill-in-decision:" + statusName(res.Status))
+	expS, expE := runner.StatusTimeLimitExceeded, 9
+	if who == "forked-child" {
+		expS, expE = runner.StatusNonzeroExitStatus, 7
+		if verdict == "kill" {
+			// a kill verdict about a call of a live process ends the run; about a process that is already gone either the
+			// main process's own ending or Disallowed Syscall is a truthful report
+			if res.Status == runner.StatusDisallowedSyscall {
+				return
+			}
+		}
+	}
+	if res.Status != expS || res.ExitStatus != expE {
+		x.Failf(fmt.Sprintf("C09/ptrace/kill-inside-decision(%s,%s)-status-%s-expected-%s", who, verdict, statusName(res.Status), statusName(expS)),
+			"SIGKILL of the %s while the tracer decided about its call (policy answer %s): status %s exit value %d error %q, the table says %s / %d", who, verdict, statusName(res.Status), res.ExitStatus, res.Error, statusName(expS), expE)
+	}
+}
+
 // signals whose default action also writes a core file
 var c09coreSignals = []int{3, 4, 5, 6, 7, 8, 11, 24, 25, 31}
 
@@ -191,8 +291,12 @@ func init() {
 		spec.Fini = func() { c09pool.drop(); cleanupTmp() }
 		spec.Body = func(x *mc.X) {
 			setup := x.Pick("setup", setups...)
-			kind := x.Pick("kind", "exit", "raise", "fault", "hostkill", "child", "stopcont", "after-cancelled-runs", "raise-with-core-file")
+			kind := x.Pick("kind", "exit", "raise", "fault", "hostkill", "child", "stopcont", "after-cancelled-runs", "raise-with-core-file", "hostkill-inside-a-policy-decision")
 			c09core = false
+			if kind == "hostkill-inside-a-policy-decision" {
+				c09killInDecision(x, setup)
+				return
+			}
 			var argv []string
 			var expS runner.Status
 			expE := -1
